@@ -62,6 +62,10 @@ DropQ(o, D, B) == DropContainer(o, D, B) /\ UNCHANGED fixedcap
 (*      them - the only non-destructive full view the queues offer)]                         *)
 ObsEnds(s, p) ==
     /\ p.len = Len(s)
+    (* twins: is_empty / statistics agree with len(), statistics with capacity(), is_full with len = capacity *)
+    /\ \A i \in 1..Len(p.alt_len) : p.alt_len[i] = Len(s)
+    /\ \A i \in 1..Len(p.alt_cap) : p.alt_cap[i] = p.cap
+    /\ p.has_full => p.full = (Len(s) = p.cap)
     /\ p.front = (IF s = <<>> THEN None ELSE Some(s[1]))
     /\ p.back = (IF s = <<>> THEN None ELSE Some(s[Len(s)]))
     /\ p.cap >= Len(s)
